@@ -1,0 +1,27 @@
+//go:build verif
+// +build verif
+
+// Machine-checked contracts for this package (checked by /verif/govc). Comment-only.
+
+package keeper
+
+//@ import types "github.com/ovrclk/akash/x/cert/types"
+
+// ---- store layout (C06, C17): 0x01 ++ owner(20) ++ big-endian bytes of the serial ----
+//@ spec abstract certKeyOf(id: types.CertID): str = "\x01" + addrBytes(id.Owner) + bigBytes(id.Serial)
+//@ spec abstract certPrefixOf(owner: iface): str = "\x01" + addrBytes(owner)
+
+//@ func certificateKey
+//@   uses def:certKeyOf
+//@   requires id.Serial >= 0
+//@   ensures result == certKeyOf(id)
+//@ func certificatePrefix
+//@   uses def:certPrefixOf
+//@   ensures result == certPrefixOf(id)
+
+//@ lemma certPrefixExact(a: types.CertID, o: iface)
+//@   theory strings
+//@   requires len(addrBytes(a.Owner)) == 20 && len(addrBytes(o)) == 20
+//@   ensures hasPrefix(certKeyOf(a), certPrefixOf(o)) <==> addrBytes(a.Owner) == addrBytes(o)
+
+//@ property C06 := certificateKey#*, certificatePrefix#*, lemma:certPrefixExact
